@@ -398,7 +398,8 @@ impl From<&Model> for EnergyProps {
             .map(|day_idx| {
                 schedules_as_days
                     .iter()
-                    .map(|s| s[day_idx])
+                    // Los horarios más cortos que el primero no aportan días que no tienen
+                    .filter_map(|s| s.get(day_idx).copied())
                     .collect::<Vec<_>>()
             })
             .map(|mut dv| {
